@@ -87,6 +87,27 @@ CHECKS = {
         "Trusted: schema_ref/model.py and schema_ref/jsonschema_read.py (written from the documentation). Known findings are keyed by the type feature that explains the disagreement (bare Pair, @tag on a record, self-nested generic, alias of recursive generic, @list cast, unchecked datum, cast round-trip elimination); everything else is reported as `unexplained`.",
         "DESIGN.md §3 C12",
     ),
+    "C06": (
+        "exploration",
+        "runtime monitoring: classification oracle over the machine::Error variant of every evaluation of compiled well-typed code",
+        "Every evaluation of compiled code whose arguments inhabit the declared types (G-aiken modules: generics at several instantiations, recursive types, higher-order functions, Data casts fed ill-shaped Data; both generator streams; silent and verbose builds; all harvested unit tests) is classified: structural machine errors (TypeMismatch, NonFunctionalApplication, NonPolymorphicInstantiation, OpenTermEvaluated, MissingCaseBranch, ...) and panics are forbidden; EvaluationFailure, DivideByZero, EmptyList, DeserialisationError and the other partial-builtin errors are allowed.",
+        "Trusted: the classification table in oracles/aiken_checks.py (STRUCTURAL). Arguments inhabit the parameter types by construction (type-directed generation + independent type->Data model).",
+        "DESIGN.md §3 C06",
+    ),
+    "C14": (
+        "exploration",
+        "runtime monitoring: 9-way differential of the real toolchain over all trace levels x scopes (type-check and code generation both under the setting)",
+        "Each G-aiken module (both streams) and each harvested unit test / validator is type-checked and compiled under all 9 Tracing values and evaluated on the same run-time arguments; value-or-abort (and pass/fail for tests under the V3 convention) must be identical across the nine. Acceptance by the type checker must not depend on the setting either.",
+        "Trusted: the real machine as the common evaluator. Trace text, size and cost are not compared; aborting trace-message expressions are never generated (grey zone under Silent).",
+        "DESIGN.md §3 C14",
+    ),
+    "C18": (
+        "exploration",
+        "runtime monitoring: history differential (step-by-step blueprint application with JSON save/load vs plain term application vs apply_params_to_script) with independent recomputation of hashes and an independent type model for conformance",
+        "Generated validators with 1-4 parameters of generated serialisable types and a probe body that returns (p1..pn) == redeemer. After every application step: remaining parameters = tail, new code decodes to [old (con data p)], hash recomputed in Python, handlers of one validator stay in sync, save/load is a fixpoint; the fully applied validator must behave like the original applied by plain application and like apply_params_to_script on 4 contexts (incl. permuted parameters); non-conforming values at every position must be rejected with an error, never a panic, leaving the blueprint unchanged; applying to a validator without parameters must fail.",
+        "Trusted: schema_ref model for conformance, Python hashlib, the harness JSON tree codec. Parameter types avoid the features with open C12 findings.",
+        "DESIGN.md §3 C18",
+    ),
     "C20": (
         "exploration",
         "runtime monitoring: crash/abort/blow-up monitor over subprocess shards with realistic stacks, hostile near-valid inputs, CPU-time growth series",
